@@ -255,3 +255,7 @@ def run(eng, R):
                 why = "a store into the result is not in the row of the parameter whose MINOS interval it holds"
         R.ob("H-minos", "MinimizerIMinuit._calculate_asymmetric_parameter_errors:rows", ok_shape and stores_ok, (fm.file, fm.lineno),
              "asymmetric errors of the iminuit backend: %s" % why)
+
+    with R.guard("members of a MultiFit follow fix / release"):
+        R.rule("H-members", "the member fits of a MultiFit (whose own fixed-parameter bookkeeping their error bands read) are released when the MultiFit releases a parameter it fixed on them", 1)
+        common.undo_pairs_forwarded(R, "H-members", p)
